@@ -222,6 +222,70 @@ func runOne(n int, g Graph, strat vsched.Strategy, budget int) ([]Event, vsched.
 	return append([]Event(nil), evs...), out
 }
 
+// BigSummary is what a run with tens of thousands of items is reduced to (an event trace of it would be too long for TLC;
+// the counters say what the contract is about).
+type BigSummary struct {
+	N         int    `json:"n"`
+	Items     int    `json:"items"`     // distinct items added (the root and its children)
+	Adds      int    `json:"adds"`      // Add calls, duplicates included
+	FCalls    int    `json:"fcalls"`    // calls of f
+	MaxPer    int    `json:"maxper"`    // most calls of f for one item
+	MaxInProg int    `json:"maxinprog"` // most calls of f in progress at once
+	End       string `json:"end"`       // done | hang | panic
+}
+
+// bigRun: one item adds `kids` others in one go (more than any queue or table bound an implementation may have), and
+// every child adds one of the first hundred children again - an item seen long ago.
+func bigRun(n, kids int) BigSummary {
+	calls := make([]int32, kids+1)
+	var inprog, maxin, adds, fcalls int64
+	sum := BigSummary{N: n, Items: kids + 1, End: "done"}
+	done := make(chan interface{}, 1)
+	go func() {
+		defer func() { done <- recover() }()
+		w := &par.Work{}
+		atomic.AddInt64(&adds, 1)
+		w.Add(0)
+		w.Do(n, func(item any) {
+			k := item.(int)
+			cur := atomic.AddInt64(&inprog, 1)
+			for {
+				m := atomic.LoadInt64(&maxin)
+				if cur <= m || atomic.CompareAndSwapInt64(&maxin, m, cur) {
+					break
+				}
+			}
+			atomic.AddInt32(&calls[k], 1)
+			atomic.AddInt64(&fcalls, 1)
+			if k == 0 {
+				for c := 1; c <= kids; c++ {
+					atomic.AddInt64(&adds, 1)
+					w.Add(c)
+				}
+			} else {
+				atomic.AddInt64(&adds, 1)
+				w.Add(k%100 + 1)
+			}
+			atomic.AddInt64(&inprog, -1)
+		})
+	}()
+	select {
+	case p := <-done:
+		if p != nil {
+			sum.End = "panic"
+		}
+	case <-time.After(freeHang):
+		sum.End = "hang"
+	}
+	sum.Adds, sum.FCalls, sum.MaxInProg = int(atomic.LoadInt64(&adds)), int(atomic.LoadInt64(&fcalls)), int(atomic.LoadInt64(&maxin))
+	for k := range calls {
+		if c := int(atomic.LoadInt32(&calls[k])); c > sum.MaxPer {
+			sum.MaxPer = c
+		}
+	}
+	return sum
+}
+
 // ---- trace collection with de-duplication ----
 // runs that ended "stalled" (the scheduler gave up: an actor blocked in a primitive the shims do not model)
 var stalledRuns int64
@@ -303,6 +367,7 @@ func main() {
 	bound := flag.Int("bound", 2, "preemption bound for dfs")
 	maxruns := flag.Int("maxruns", 200000, "cap on dfs runs per (n, graph)")
 	runs := flag.Int("runs", 2000, "random / free runs")
+	big := flag.String("big", "", "free mode: summaries (ndjson) of the runs that are too large to record event by event")
 	flag.Parse()
 	res := vutil.NewResult()
 	col := &collector{seen: map[string]*TraceRec{}}
@@ -469,6 +534,15 @@ func main() {
 				}
 			}
 			runtime.GOMAXPROCS(old)
+		}
+		if *big != "" && atomic.LoadInt32(&hung) == 0 {
+			bw := vutil.NewNDJSONWriter(*big)
+			for _, n := range []int{1, 3} {
+				bw.Write(bigRun(n, 70000))
+				res.Eval(true)
+				res.Count("free_runs_big", 1)
+			}
+			bw.Close()
 		}
 		res.Count("free_runs", int64(*runs))
 	}
